@@ -238,6 +238,19 @@ def gen_case(seed, prop, idx):
     return case
 
 
+def huge_case(seed, variant):
+    """one history over ~8 300 points: an in-order insert_multiple, then a removal that keeps two or three points
+    (index-exact query / measurement scan) — crash and fault trials go to the removal"""
+    r = random.Random(seed)
+    n = r.randint(8250, 8400)
+    T0 = G.T0
+    tiny = sorted(r.sample(range(n), 2))
+    pts = [["pt", str(T0 + i), hx("tiny" if i in tiny else "big"), ["tags", [hx("k"), hx(str(i % 3))]], ["fields"]] for i in range(n)]
+    rm = (["remove", ["time", ["cmp", "gt", f"t:{T0 + 1}"]], "~"] if variant % 2 == 0 else ["drop", hx("big")])
+    return {"cfg": ["cfg", "csv", "auto" if variant % 2 == 0 else "noauto"], "huge": True,
+            "ops": [["ins", "~"] + pts, rm, ["all", "0"]]}
+
+
 def lean_io_lines(case):
     """protocol lines for the model: cfg, then for each op: (io f op), op, (state)"""
     f = "1" if case.get("flush", True) else "0"
@@ -443,9 +456,13 @@ def analyse_case(case, prop, tier, root):
         cand = [i for i, r in enumerate(recs) if r["name"] in MUTATING and r["trace"]]
         rnd.shuffle(cand)
         cand.sort(key=lambda i: len(recs[i]["trace"]) <= 1000)       # an operation with thousands of calls first
+        if case.get("huge"):
+            cand = [i for i in cand if recs[i]["name"] != "ins"]     # the trials go to the removal over the huge file
 
         def boundaries(n):
             """every boundary of an ordinary operation; a spread of them for one with thousands of calls"""
+            if case.get("huge"):
+                return sorted(set(list(range(0, 6)) + list(range(6, n, max(1, n // 8))) + list(range(n - 6, n + 3))))
             if n <= 300:
                 return list(range(0, n + 3))
             step = max(1, n // 24)
@@ -479,7 +496,7 @@ def analyse_case(case, prop, tier, root):
                                           dict(boundary="after-return")))
                         break
             else:
-                for after in (False, True):
+                for after in ((False,) if case.get("huge") else (False, True)):
                     ks = boundaries(n) if n > 300 else range(0, 400)
                     for k in ks:
                         obs = fault_trial(case, i, k, after, root)
@@ -566,6 +583,8 @@ class Family:
             n *= 2
         base = C.seed() * 7907 + int(prop[1:]) * 101
         cases = [gen_case(base * 100003 + i, prop, i) for i in range(n)]
+        if prop in ("C12", "C04") or (prop == "C13" and tier == "thorough"):
+            cases = [huge_case(base + v, v) for v in range(1 if tier == "quick" or prop == "C13" else 2)] + cases
         if prop == "C15":
             cases = [c for c in cases if c.get("mode", "r+") == "r+"]   # other modes: dedicated check below
         root = tempfile.mkdtemp(prefix="vf_io_")
